@@ -117,6 +117,15 @@ reg("C14", "reference-model monitor: real contains/sample/canonical/flatten_samp
     "Trusts the NumPy space model (cross-checked against gym.Space.contains); ambiguous representations (plain dict for Dict, list for Tuple, "
     "int arrays for Box) are only required not to raise; subnormal bounds excluded (XLA flushes them).")
 
+reg("C09", "offline checker over recorded index sets and decoded rows (unique sample id in every leaf); gradient tagging through the real PPO.train with a recording optimiser and a value-table stub policy; icontract post-conditions on batch_indices/gather during eager train",
+    "Held on every configuration explored: flatten_axes is a bijection on sample ids with all leaves of a row intact (Dict/Tuple observations, "
+    "vector actions, masks, policy-state modules; all (envs<=4, steps<=16, batch) run completely in thorough); batch_indices gives floor(N/B) "
+    "disjoint in-range rows; gather/batches/sample return intact rows; through the real jitted PPO.train each epoch uses exactly floor(N/B)*B distinct "
+    "samples, every minibatch row's fields belong together (mismatch channels for every field), epochs are shuffled differently and drop different "
+    "samples; optimiser step count = epochs*floor(N/B).",
+    "Trusts the id encoding (exact in float32) and the recording optimiser; freshness of shuffles judged only where a coincidence has p < 1e-6; "
+    "order of the flattened axis is not asserted (the property demands a bijection).")
+
 
 def main():
     props = [json.loads(l) for l in (ROOT / "properties.jsonl").read_text().splitlines() if l.strip()]
